@@ -94,3 +94,31 @@ contract(
     raises={"Exception": "True"},          # a default expression that fails to evaluate
     loops={LOOP1: dict(modifies=[CTX2, ARGS2], inv=[DONE % "_k", REST % "_k", "is_dict(%s)" % CTX2, "is_dict(%s)" % ARGS2])},
 )
+
+# ---------------------------------------------------------------------------------------------------------------------------
+# `return <expr>`: the value is stored under `_return_value` (what FlowState.finished_event hands to the caller) and the flow ends
+# ---------------------------------------------------------------------------------------------------------------------------
+"""Block contract on the `Return` branch of slide(): `_return_value` IS the evaluated expression (None for a bare `return`) - whatever the value,
+falsy ones included -, every other context variable is untouched, and the head is moved past the last element (the flow finishes).  Together
+with the contract of FlowState.finished_event (C08_binding.py: return_value == context['_return_value']) this is "the value given to `return`
+is what `$x = await flow` assigns in the caller"."""
+classes({"Return": [], "FlowHead": []})
+contract(
+    SM, "slide", prop="C08", block=("value = None", "head.position = len(flow_config.elements)"),
+    vars={"state": "V", "flow_state": "V", "flow_config": "V", "head": "V", "element": "V", "value": "V"},
+    ghost_lists=["evald"],
+    must_reach=["value = eval_expression(..."],
+    opaque_here={"eval_expression": dict(assigns=[], raises=["Exception"], log_result="evald",
+                                         note="eval_expression(expr, context): the value of the return expression (arbitrary, may raise); no effect on "
+                                              "existing objects; recorded in the ghost trace `evald`"),
+                 "_get_eval_context": dict(pure=True, raises=[], note="the evaluation context of the flow: no effect")},
+    requires=["is_obj(flow_state)", "has(flow_state, 'context')", "is_dict(flow_state.context)", "is_obj(element)", "has(element, 'expression')",
+              "is_obj(flow_config)", "has(flow_config, 'elements')", "is_list(flow_config.elements)", "is_obj(head)", "is_obj(state)"],
+    ensures=["has(flow_state.context, '_return_value')",
+             "implies(old(truthy(element.expression)), llen(evald) == 1 and val(flow_state.context, '_return_value') is item(evald, 0))",
+             "implies(not old(truthy(element.expression)), is_none(val(flow_state.context, '_return_value')))",
+             "all(implies(k is not '_return_value', has(flow_state.context, k) == old(has(flow_state.context, k)) and "
+             "            val(flow_state.context, k) is old(val(flow_state.context, k))) for k in values_any())",
+             "head.position == llen(flow_config.elements)"],
+    raises={"Exception": "truthy(element.expression)"},
+)
